@@ -632,3 +632,28 @@ func VNewBase(hdr map[string]interface{}, payload []byte, signer, other, attacke
 func VHostile(r *rand.Rand, b vBase, nFlips int) []vVariant { return vHostile(r, b, nFlips) }
 func VAnalyse(tok string) (vInfo, *jws.Message)             { return vAnalyse(tok) }
 func VJSON(v interface{}) []byte                            { return vJSON(v) }
+
+// VAlgFitsKey : RFC 7518 3.4 re-stated — an ECDSA key goes with the algorithm of its curve only; other keys: true (jwx checks
+// the family). The harness's own verdict, independent of crypto/jwx.AlgorithmFitsKey.
+func VAlgFitsKey(alg string, key interface{}) bool {
+	var bits int
+	switch k := key.(type) {
+	case *ecdsa.PublicKey:
+		bits = k.Curve.Params().BitSize
+	case *ecdsa.PrivateKey:
+		bits = k.Curve.Params().BitSize
+	case jwk.ECDSAPublicKey:
+		bits = map[string]int{"P-256": 256, "P-384": 384, "P-521": 521}[k.Crv().String()]
+	default:
+		return true
+	}
+	switch bits {
+	case 256:
+		return alg == "ES256"
+	case 384:
+		return alg == "ES384"
+	case 521:
+		return alg == "ES512"
+	}
+	return true
+}
